@@ -1828,6 +1828,51 @@ def overwriting_loads(ctx, b, params=(1,)):
     return out
 
 
+# ---- the threshold below which a coefficient is dropped -----------------------------------------
+# The sum is exact coefficient by coefficient up to the documented dropping of coefficients below MACHINE EPSILON: a fixed,
+# tiny bound.  A bound computed from the operands (`scale * EPSILON` with scale = the largest coefficient, a relative
+# tolerance, a user-supplied epsilon) makes one coefficient's survival depend on unrelated terms of the same sum.
+def const_value(ctx, body, e, _depth=0):
+    """numeric value of an expression tree that is a constant: a literal / named constant, simple arithmetic of constants,
+    or -- inside a closure -- a captured variable that is such a constant in the enclosing function; None otherwise"""
+    e = T.strip_wrappers(e)
+    if e[0] == 'const': return fval(body, e[1])
+    if e[0] == 'bin' and _depth < 4:
+        x, y = const_value(ctx, body, e[2], _depth + 1), const_value(ctx, body, e[3], _depth + 1)
+        if x is None or y is None: return None
+        try: return {'Mul': x * y, 'Add': x + y, 'Sub': x - y, 'Div': x / y}.get(e[1])
+        except ZeroDivisionError: return None
+    if e[0] == 'un' and e[1] == 'Neg' and _depth < 4:
+        x = const_value(ctx, body, e[2], _depth + 1); return None if x is None else -x
+    if e[0] == 'place' and e[1] == 1 and body.kind == 'closure' and e[2] and e[2][0][1].isdigit() and _depth < 3:
+        # captured variable: look at what was captured where the closure is created
+        parent = ctx.F.bodies.get(body.parent)
+        for pb in ([parent] if parent is not None else []) + [x for x in ctx.F.bodies.values() if x.kind == 'closure' and x.parent == body.parent and x is not body]:
+            for bi, st, cl in pb.closures_created():
+                if cl == body.name and int(e[2][0][1]) < len(st['rv']['ops']):
+                    return const_value(ctx, pb, T.expr(pb, st['rv']['ops'][int(e[2][0][1])]), _depth + 1)
+    return None
+
+
+def drop_threshold_problems(ctx, b):
+    """magnitude tests `|x| (<|<=|>|>=) t` in body b and the closures created in it whose bound t is not a constant in
+    (0, 1e-9]: [(site, description)]"""
+    out = []
+    bodies = [b] + [cb for cb in ctx.F.bodies.values() if cb.kind == 'closure' and cb.parent == (b.parent if b.kind != 'fn' else b.name)]
+    for body in bodies:
+        for bi, st in float_cmp_sites(body, ('Lt', 'Le', 'Gt', 'Ge')):
+            es = [T.expr(body, o) for o in st['rv']['ops']]
+            def is_mag(e):
+                e = T.strip_wrappers(e); return e[0] == 'call' and e[1] == 'abs'
+            mags = [is_mag(e) for e in es]                       # `|x|` itself on one side, the bound on the other
+            if mags[0] == mags[1]: continue                       # not a magnitude-against-bound test
+            bound = es[1] if mags[0] else es[0]
+            v = const_value(ctx, body, bound)
+            if v is None: out.append((body.site(bi), 'the bound %s is computed, not a constant' % T.expr_str(T.strip_wrappers(bound), 3)))
+            elif not (0 < v <= 1e-9): out.append((body.site(bi), 'the bound %g is not a machine-epsilon sized constant' % v))
+    return out
+
+
 def constant_rule(ctx, b, rid):
     """constant of Linear + Linear is self.constant + rhs.constant — in the aggregate built here, or
     handed to a constructor that stores its parameter verbatim"""
@@ -1901,6 +1946,13 @@ def kernel_rules(ctx):
     if b is None: ctx.lost(R + '/Quadratic+Quadratic', 'Add')
     else:
         ctx.fn(b); quad_merge_rule(ctx, b, R + '/Quadratic+Quadratic/merge')
+    # what is dropped from a sum is dropped under a fixed machine-epsilon sized bound, never one derived from the operands
+    for ty in ('v1::Linear', 'v1::Polynomial', 'v1::Quadratic'):
+        b = ctx.F.one(ty, 'add', trait='Add', targs=[ty])
+        if b is None: continue                       # lost anchors are reported above
+        short = ty.split('::')[-1]
+        pr = drop_threshold_problems(ctx, b)
+        ctx.check(not pr, R + '/%s+%s/drop-threshold' % (short, short), 'T-CONST', b.name, 'a coefficient of the sum is dropped under a bound that is not the fixed epsilon: %s' % '; '.join(w for s_, w in pr), pr[0][0] if pr else b.site())
     # the merge constructors themselves (everything that builds a function from (key, coefficient) pairs goes through them:
     # conversions between kinds, mixed-kind + and *, the products): items with equal keys are merged by ADDING -- through a
     # keyed container with `+=` (the add-site table), or sort + dedup_by adding the removed neighbour into the retained one
@@ -1917,6 +1969,8 @@ def kernel_rules(ctx):
         ok = 1 in merge_sink_params(ctx, b)
         why = [w for c, v, w in dedup_calls(ctx, b) if v == 'loss']
         ctx.check(ok, rid, 'T-BRANCHFX', b.name, 'items with equal keys are not merged by adding their coefficients for every item%s' % (': ' + '; '.join(why) if why else ''), b.site())
+        pr = drop_threshold_problems(ctx, b)
+        ctx.check(not pr, rid + '/drop-threshold', 'T-CONST', b.name, 'a merged coefficient is dropped under a bound that is not the fixed epsilon: %s' % '; '.join(w for s_, w in pr), pr[0][0] if pr else b.site())
     for ty, adt, fld in (('v1::Linear', 'v1::linear::Term', 'coefficient'), ('v1::Polynomial', 'v1::Monomial', 'coefficient'), ('v1::Quadratic', 'v1::Quadratic', 'values')):
         b = ctx.F.one(ty, 'mul', trait='Mul', targs=['f64'])
         if b is None: ctx.lost(R + '/%s*f64' % ty, 'Mul<f64>'); continue
@@ -1938,7 +1992,7 @@ def kernel_rules(ctx):
         okz = bool(Ls) and T.must_pass(b, 0, return_blocks(b), via)
         ctx.check(okz, R + '/%s*f64/only-exact-zero-shortcut' % short, 'T-GUARD', b.name,
                   'the function is returned without scaling under %s, not only for a scalar that is exactly 0' % (other or 'some condition'), b.site())
-    ctx.floor(R, 18)
+    ctx.floor(R, 26)
 
 
 # =============================================================================== C02.sorted
